@@ -149,6 +149,32 @@ Definition generations (p : list mfunc) : list (list mfunc) :=
   filter (fun g => negb (length g =? 0))
          (map (fun l => filter (fun f => level_of lv f =? l) p) (seq 1 top)).
 
+(* decidable order conditions on the list of functions (used by the link to the denotation, Props/C06.v): the list is
+   in topological order, every produced parameter is produced in an earlier generation, every function is in a
+   generation.  pipefunc's sorted_functions / topological_generations satisfy them. *)
+Definition indepb (g f : mfunc) : bool := forallb (fun o => negb (mem_str o (fparams f))) (fouts g).
+Fixpoint topo_listb (p : list mfunc) : bool :=
+  match p with
+  | [] => true
+  | f :: rest => indepb f f
+                 && forallb (fun g => indepb g f && forallb (fun o => negb (mem_str o (fouts f))) (fouts g)) rest
+                 && topo_listb rest
+  end.
+(* every parameter that some function produces is produced in an earlier generation (by names) *)
+Fixpoint producers_beforeb (p : list mfunc) (names : list str) (gens : list (list mfunc)) : bool :=
+  match gens with
+  | [] => true
+  | gen :: rest =>
+      forallb (fun f => forallb (fun q => match producer p q with Some _ => mem_str q names | None => true end) (fparams f)) gen
+      && producers_beforeb p (names ++ flat_map fouts gen) rest
+  end.
+Definition levels_okb (p : list mfunc) : bool :=
+  let lv := levels p in
+  let top := fold_right Nat.max 0 (map snd lv) in
+  forallb (fun f => (1 <=? level_of lv f) && (level_of lv f <=? top)) p.
+Definition pipeline_order_ok (p : list mfunc) : bool :=
+  topo_listb p && producers_beforeb p [] (generations p) && levels_okb p.
+
 (* mapspec_axes (with never-named leading axes reported as None, trailing ones dropped) *)
 Definition axes_dict := list (str * list (option str)).
 Fixpoint merge_axes (old new : list (option str)) : list (option str) :=
